@@ -777,7 +777,7 @@ def iorand_vectors(seed, num, depth=60, cfg="IoRandom_emit"):
 
 
 def iorand_judge(vecs, params, outpath):
-    """vecs[i] = [7777, flen, base, hist]; hist[p] = [ops, full, file0, file, stop]; params[i] = (unit, pages).
+    """vecs[i] = [7777, flen, base, hist]; hist[p] = [ops, full, file0, file, stop, base]; params[i] = (unit, pages).
     full[i] = the slice a read delivers when it runs to completion (= what it did deliver in the spec's behaviour when
     stop = 0).  stop = 1: the batch raced dispatch_io_close(DISPATCH_IO_STOP); the outcome depends on the race, so the
     clauses of PhaseLaw are evaluated on the observed transfer counts (prefix of the slice; error 0 => everything;
@@ -794,8 +794,8 @@ def iorand_judge(vecs, params, outpath):
             obs[("C", int(f[1]))] = [int(x) for x in f[2:]]
     bad = []
     for vi, (vec, (unit, pages)) in enumerate(zip(vecs, params)):
-        _, flen, base, hist = vec
-        for p, (ops, got, file0, filep, stop) in enumerate(hist, 1):
+        _, flen, _b, hist = vec
+        for p, (ops, got, file0, filep, stop, base) in enumerate(hist, 1):
             fexp = bytearray(b"".join(cell_bytes(c, unit) for c in file0))
             for i, (k, off, ln_) in enumerate(ops, 1):
                 o = obs.get(("R", vi, p, i))
@@ -838,8 +838,8 @@ def iorand_judge(vecs, params, outpath):
                 bad.append((vi, "vector %d (unit %d, chunk pages %d, base %d) phase %d ops %s: file afterwards %s, the spec has %s = %d bytes crc %08x" % (
                     vi, unit, pages, base, p, ops, o, filep, len(exp), zlib.crc32(exp) & 0xffffffff)))
         o = obs.get(("C", vi))
-        if o is None or o[0] != 1 or o[1] != 0:
-            bad.append((vi, "vector %d: cleanup handler %s (want once, error 0)" % (vi, o)))
+        if o is None or o[0] != o[2] or o[1] != 0:
+            bad.append((vi, "vector %d: cleanup handlers [runs, error, channels] = %s (want one run per channel, error 0)" % (vi, o)))
     return bad
 
 
@@ -849,10 +849,10 @@ def iorand_run(drv, vecs, params, tag):
     op = os.path.join(d, "iorand_%s.out" % tag)
     with open(vp, "w") as f:
         for vec, (unit, pages) in zip(vecs, params):
-            _, flen, base, hist = vec
-            f.write("%d %d %d %d %d" % (unit, pages, flen, base, len(hist)))
-            for ops, _g, _f0, _f, stop in hist:
-                f.write(" %d %d" % (len(ops), stop))
+            _, flen, _b, hist = vec
+            f.write("%d %d %d %d %d" % (unit, pages, flen, hist[0][5], len(hist)))
+            for ops, _g, _f0, _f, stop, pbase in hist:
+                f.write(" %d %d %d" % (len(ops), stop, pbase))
                 for k, off, ln_ in ops:
                     f.write(" %d %d %d" % (k, off, ln_))
             f.write("\n")
@@ -896,6 +896,9 @@ def random_access(v, tier, seed):
     if not r.violated:
         vecs2, r = iorand_vectors(seed + 3, max(20, num // 2), cfg="IoRandom_semit")
         vecs += vecs2
+    if not r.violated:
+        vecs3, r = iorand_vectors(seed + 5, max(20, num // 2), depth=90, cfg="IoRandom_remit")
+        vecs += vecs3
     if r.violated:
         v.violation("IoRandom.tla (emission config): %s violated" % r.violated, save_replay(PROP, "IoRandom_emit.out", r.out[-20000:]))
         return
@@ -907,9 +910,10 @@ def random_access(v, tier, seed):
     bad = iorand_run(drv, vecs, params, "main")
     v.traces += len(vecs)
     v.notes["random_access_vectors_replayed"] = len(vecs)
+    v.notes["random_access_vectors_with_derived_channel"] = sum(1 for vec in vecs if len(set(h[5] for h in vec[3])) > 1)
     v.notes["random_access_vectors_with_stop"] = sum(1 for vec in vecs if vec[3][-1][4])
     v.notes["random_access_operations"] = sum(len(h[0]) for vec in vecs for h in vec[3])
-    v.samples.append("random-access vector: file %d cells, base %d, phases %s" % (vecs[0][1], vecs[0][2], json.dumps(vecs[0][3])[:300]))
+    v.samples.append("random-access vector: file %d cells, base %d, phases %s" % (vecs[0][1], vecs[0][3][0][5], json.dumps(vecs[0][3])[:300]))
     if bad:
         vi = bad[0][0]
         # confirm on the single vector (a rejection is reported only if it repeats)
